@@ -303,6 +303,8 @@ def sweep(da, d, rng: random.Random, tier_: str, out: Outcome) -> list[dict[str,
             js = superset_json(ident)
             if tok:
                 js['csrf_token'] = tok
+            if 'pk' in variant:
+                js['pk'] = variant['pk']        # a primary key in the body that differs from the one in the URL
             kw['json'] = js
         elif variant['body'] == 'query':
             q = f'kid=0f1e2d3c4b5a69788796a5b4c3d2e1f0&index=1&ajax=1'
@@ -358,8 +360,13 @@ def sweep(da, d, rng: random.Random, tier_: str, out: Outcome) -> list[dict[str,
             for role in ROLES:
                 s = get_session(role)
                 urls = fill_rule(rule, ident, s.user_pk, ident['users']['media'] if role != 'media' else ident['users']['user'])
+                other_pk = ident['users']['media'] if role != 'media' else ident['users']['user']
                 for url in urls:
                     vs = variants_head if method == 'HEAD' else (variants_get if method == 'GET' else variants_mut)
+                    if '<int:upk>' in rule.rule and method in ('POST', 'PUT') and s.user_pk and url.endswith(f'/{s.user_pk}'):
+                        # the caller's own URL, but the body names somebody else (and the admin)
+                        vs = list(vs) + [{'body': 'json', 'csrf': 'streams', 'pk': other_pk},
+                                         {'body': 'json', 'csrf': 'streams', 'pk': ident['users']['admin']}]
                     if tier_ == 'quick' and role == 'admin' and method not in ('GET', 'HEAD'):
                         vs = vs[:3]      # admins are authorised almost everywhere: a reduced set in the quick tier
                     for v in vs:
